@@ -293,8 +293,15 @@ type archiveableDataBlock struct {
 	dataBlock
 	earliestTime     time.Time
 	requestedSamples int
-	complete         chan struct{}
+	complete         chan *filledArchiveBlock // carries the filled block to the goroutine that writes it
 	active           bool
+}
+
+// filledArchiveBlock is what the data-handling loop hands to the file-writing goroutine once an
+// archive request is filled. The writer owns it: the loop keeps no reference to its contents.
+type filledArchiveBlock struct {
+	dataBlock
+	channelNames []string
 }
 
 // AnySource implements features common to any object that implements
@@ -408,8 +415,12 @@ func (ds *AnySource) archiveNewDataBlock(block *dataBlock) {
 
 	requestFilled := ab.nSamp >= ab.requestedSamples
 	if requestFilled {
-		close(ab.complete)
+		// Hand the filled block over to the writer goroutine and forget it here, so that nothing the
+		// writer reads is touched again by this loop, by the next archive request, or by a restart.
+		filled := &filledArchiveBlock{dataBlock: ab.dataBlock, channelNames: ds.ChannelNames()}
+		ab.dataBlock = dataBlock{}
 		ab.active = false
+		ab.complete <- filled
 	}
 }
 
@@ -1078,12 +1089,11 @@ func (ds *AnySource) StopTriggerCoupling() error {
 	return ds.broker.StopTriggerCoupling()
 }
 
-func (ds *AnySource) writeNPZData(file *os.File) error {
+func writeNPZData(file *os.File, ab *filledArchiveBlock) error {
 	wz := npz.NewWriter(file)
 	defer wz.Close()
 
-	ab := ds.archiveBlock
-	channelNames := ds.ChannelNames()
+	channelNames := ab.channelNames
 	firstFrame := make([]int64, len(ab.segments))
 	for i, stream := range ab.segments {
 		data := stream.rawData
@@ -1111,15 +1121,16 @@ func (ds *AnySource) ArchiveDataBlock(N int, file *os.File, finalName string) er
 	}
 	ds.archiveBlock.earliestTime = time.Now()
 	ds.archiveBlock.requestedSamples = N
-	ds.archiveBlock.segments = nil
-	ds.archiveBlock.complete = make(chan struct{})
+	ds.archiveBlock.dataBlock = dataBlock{}
+	complete := make(chan *filledArchiveBlock, 1)
+	ds.archiveBlock.complete = complete
 	ds.archiveBlock.active = true
 
-	// Launch this goroutine, which will execute when the ds.archiveBlock.complete channel is closed
+	// Launch this goroutine, which will execute when the filled block arrives on the channel
 	go func() {
 		// When the archiveBlock is filled, write to npz file.
-		<-ds.archiveBlock.complete
-		if err := ds.writeNPZData(file); err != nil {
+		filled := <-complete
+		if err := writeNPZData(file, filled); err != nil {
 			file.Close()
 		}
 
